@@ -336,8 +336,11 @@ def extract_fn(item, opts, blocks, rewrites_log, as_stub=False):
                     b = text[tk(i + 1)[2]:tk(cb - 1)[3]] if i + 1 < cb else '%s.len()' % tk(q + 2)[1]
                     s0 = tk(q)[2]; e0 = tk(cb)[3]
                     if not any(a0 <= s0 < b0 for (a0, b0) in r4_spans):
-                        edits.append((s0, e0, R('11', text[s0:e0], 'verif_slice_mut(%s, %s, %s)' % (tk(q + 2)[1], a, b))))
-                        rewrites_log.append({'rule': 'R11', 'fn': item.name, 'before': text[s0:e0], 'after': 'verif_slice_mut(%s, %s, %s)' % (tk(q + 2)[1], a, b)})
+                        # opt slicevec=a,b : the named bases are local Vecs, not slice parameters
+                        if tk(q + 2)[1] in opts.get('slicevec', '').split(','): call = 'verif_vec_slice_mut(&mut %s, %s, %s)' % (tk(q + 2)[1], a, b)
+                        else: call = 'verif_slice_mut(%s, %s, %s)' % (tk(q + 2)[1], a, b)
+                        edits.append((s0, e0, R('11', text[s0:e0], call)))
+                        rewrites_log.append({'rule': 'R11', 'fn': item.name, 'before': text[s0:e0], 'after': call})
                     q = cb + 1; continue
             q += 1
 
@@ -793,7 +796,7 @@ def generate(unit_name):
             frag = types.SimpleNamespace(text=text[s0:e0], name=name + '#fragment', line=item.line + text.count('\n', 0, s0), path=path, kind='fn', impl=item.impl)
             fblocks = {'_rewrites': blocks.get('_rewrites', []), '_lines': {}}
             for kx, vx in blocks.items():
-                if kx.startswith('before ') or kx.startswith('after '): fblocks[kx] = vx
+                if kx.startswith('before ') or kx.startswith('after ') or kx.startswith('loop'): fblocks[kx] = vx
             wrapper = types.SimpleNamespace(text='fn verif_frag() {' + frag.text + '}', name=frag.name, line=frag.line, path=path, kind='fn', impl=item.impl)
             o2 = dict(opts); o2.pop('first', None); o2.pop('last', None)
             body = extract_fn(wrapper, o2, fblocks, u.rewrites)
